@@ -153,6 +153,22 @@ def _err_kind(name):
             'KeyError': 'key', 'AttributeError': 'attribute'}.get(name, 'other')
 
 
+def _expected_raw(ds, d):
+    """The bytes of every frame as the standard lays them out (independent of the library): the frame's byte range of native
+    PixelData (for bit-packed data the smallest range of whole bytes that contains the frame), the frame's fragments for
+    encapsulated data."""
+    n = d['frames']
+    if d['ts'] in ('Explicit VR Little Endian', 'Implicit VR Little Endian'):
+        pd = bytes(ds.PixelData)
+        npix = d['rows'] * d['cols'] * d['samples']
+        if d['bits'] == 1:
+            return [pd[(i * npix) // 8:((i + 1) * npix + 7) // 8] for i in range(n)]
+        flen = npix * d['bits'] // 8
+        return [pd[i * flen:(i + 1) * flen] for i in range(n)]
+    from pydicom.encaps import generate_frames
+    return [bytes(f) for f in generate_frames(ds.PixelData, number_of_frames=n)]
+
+
 def _check_image(ctx, d, ds, fr, reqs, pending):
     import highdicom as hd
     import pydicom
@@ -403,6 +419,20 @@ def _check_image(ctx, d, ds, fr, reqs, pending):
                     ctx.fail({'image': d, 'path': name, 'call': what, 'frame': idx + 1, 'history': 'fetch, edit the result in place, fetch again'},
                              'second fetch returns the edited pixels (results share memory)' if st == 'ok' else f'second fetch refused: {b}',
                              site=what + '/edit-result')
+        # ---- raw frame bytes: the bytes of THAT frame (so that they decode to the same values), by number and by index, before and
+        # after the whole array is cached
+        want_raw = _expected_raw(ds, d)
+        for phase in ('fresh', 'cached'):
+            if phase == 'cached':
+                _fetch(lambda: im.pixel_array)
+            for idx in range(n):
+                for ai in (False, True):
+                    st, rawb = _fetch(im.get_raw_frame, idx if ai else idx + 1, as_index=ai)
+                    ctx.case(path=name + '/raw-frame', raw_phase=phase)
+                    if st != 'ok' or (bytes(rawb) != want_raw[idx] and bytes(rawb).rstrip(b'\x00') != want_raw[idx].rstrip(b'\x00')):
+                        ctx.fail({'image': d, 'path': name, 'k': idx if ai else idx + 1, 'as_index': ai, 'phase': phase},
+                                 f'raw frame bytes are not the bytes of that frame: {rawb if st != "ok" else bytes(rawb)[:12].hex()}',
+                                 site='get_raw_frame/' + name.split('-')[0])
         # ---- the same requests once the whole pixel array is cached on the object (a separate code path)
         st, whole = _fetch(lambda: im.pixel_array)
         if native and d['bits'] == 1 and name == 'lazy':
@@ -1152,19 +1182,52 @@ def _histories(ctx, reqs, pending):
         n, rows, cols = r.choice([1, 2, 3, 5]), r.randint(1, 4), r.randint(1, 5)
         fr = nr.random((n, rows, cols)) < 0.5
         ds = multiframe_image(fr, 1, ExplicitVRLittleEndian)
-        st, im = _fetch(lambda: hd.Image.from_dataset(pydicom.dcmread(io.BytesIO(to_bytes(ds))), copy=False))
+        lazy = idx % 3 == 2          # a third of the histories run on a lazily read object (no replacement of PixelData there)
+        blob_h = to_bytes(ds)
+        st, im = _fetch((lambda: hd.imread(blob_h, lazy_frame_retrieval=True)) if lazy else
+                        (lambda: hd.Image.from_dataset(pydicom.dcmread(io.BytesIO(blob_h)), copy=False)))
         if st != 'ok':
             ctx.fail({'history': idx}, f'could not open image: {im}', site='open/history')
             continue
-        pd0 = list(im.PixelData)
+        pd0 = list(ds.PixelData)
         cur = np.array(fr)
         ops, impl = [], []
         # every PixelData value ever assigned stays alive: pydicom recognises a stale array by the IDENTITY of the value object, and
         # CPython hands the address of a freed bytes object to the next one (an artefact of pydicom's check, not of the library)
-        alive = [im.PixelData]
-        d = {'idx': idx, 'frames': n, 'rows': rows, 'cols': cols}
+        alive = [] if lazy else [im.PixelData]
+        d = {'idx': idx, 'frames': n, 'rows': rows, 'cols': cols, 'lazy': lazy}
         for step in range(r.randint(3, 9)):
             u = r.random()
+            if u < 0.2:
+                # a batch of several numbers: permutations, repeats, all frames in another order, one number outside, empty
+                ai = r.random() < 0.5
+                kind = r.choice(['permutation', 'repeats', 'some', 'one-outside', 'empty'])
+                base = list(range(n)) if ai else list(range(1, n + 1))
+                if kind == 'permutation':
+                    ks = base[:]
+                    r.shuffle(ks)
+                elif kind == 'repeats':
+                    ks = [r.choice(base) for _ in range(n)]
+                elif kind == 'some':
+                    ks = [r.choice(base) for _ in range(r.randint(1, n + 1))]
+                elif kind == 'one-outside':
+                    ks = base + [n if ai else n + 1]
+                    r.shuffle(ks)
+                else:
+                    ks = []
+                stq, v = _fetch(im.get_stored_frames, ks, as_indices=ai)
+                ops.append({'op': 'fetchMany', 'ks': ks, 'as_index': ai})
+                impl.append({'ok': [[bool(x) for x in np.asarray(f_).reshape(-1)] for f_ in v]} if stq == 'ok' else {'err': _err_kind(v)})
+                ctx.case(path='history/fetch-many', history_step='batch-' + kind, history_object='lazy' if lazy else 'memory')
+                idxs = [k if ai else k - 1 for k in ks]
+                if ks and all(0 <= q < n for q in idxs):
+                    if stq != 'ok' or not np.array_equal(np.asarray(v).astype(bool), cur[idxs]):
+                        ctx.fail({'history': d, 'ops': ops}, 'a batch does not return the requested frames of the current pixel data, in request order'
+                                 if stq == 'ok' else f'batch refused: {v}', site='get_stored_frames/history')
+                elif stq == 'ok':
+                    ctx.fail({'history': d, 'ops': ops}, 'an empty batch / a batch with a number outside the image was answered',
+                             site='get_stored_frames/history')
+                continue
             if u < 0.55:
                 ai, batch = r.random() < 0.5, r.random() < 0.5
                 k = r.randint(-1, n + 1)
@@ -1172,7 +1235,8 @@ def _histories(ctx, reqs, pending):
                 ops.append({'op': 'fetch', 'k': k, 'as_index': ai, 'batch': batch})
                 impl.append({'ok': [bool(x) for x in np.asarray(v).reshape(-1)]} if stq == 'ok' else {'err': _err_kind(v)})
                 i0 = k if ai else k - 1
-                ctx.case(path='history/fetch', history_step='batch' if batch else 'single', inrange=0 <= i0 < n)
+                ctx.case(path='history/fetch', history_step='batch' if batch else 'single', inrange=0 <= i0 < n,
+                         history_object='lazy' if lazy else 'memory')
                 if 0 <= i0 < n:
                     if stq != 'ok' or not np.array_equal(np.asarray(v).astype(bool), cur[i0]):
                         ctx.fail({'history': d, 'ops': ops}, 'fetch does not return the frame of the pixel data the object holds now'
@@ -1194,6 +1258,8 @@ def _histories(ctx, reqs, pending):
                 ctx.case(path='history/whole', history_step='whole')
                 if stq != 'ok' or not np.array_equal(np.asarray(v).reshape(cur.shape).astype(bool), cur):
                     ctx.fail({'history': d, 'ops': ops}, 'pixel_array is not the pixel data the object holds now', site='pixel_array/history')
+            elif lazy:
+                continue
             else:
                 cur = np.array(nr.random((n, rows, cols)) < 0.5) if r.random() < 0.5 else np.ascontiguousarray(cur[::-1])
                 new = pack_bits(cur.astype(np.uint8).reshape(-1), pad=True)
@@ -1201,7 +1267,7 @@ def _histories(ctx, reqs, pending):
                 im['PixelData'].value = new
                 ops.append({'op': 'replace', 'pd': list(new)})
                 ctx.case(path='history/replace', history_step='replace')
-        reqs.append(('history', {'pd': pd0, 'rows': rows, 'cols': cols, 'n': n, 'ops': ops}))
+        reqs.append(('history', {'pd': pd0, 'rows': rows, 'cols': cols, 'n': n, 'ops': ops, 'lazy': lazy}))
         pending.append(({'history': d, 'ops': ops, 'what': 'answers of the fetches of a history vs the state machine'}, ('ok', impl)))
 
 
